@@ -24,7 +24,7 @@ BODIES = {
                      "x.tr.Select(lambda t: (lambda y: y + t.q)(y))", "x.tr.Select(lambda j: j.q + y)",
                      "x.tr.Select(lambda e: (e.q, y))"],
 }
-FORMS = ("def1", "defdoc", "lambda")
+FORMS = ("def1", "defdoc", "lambda", "multi")
 
 # call sites: lambda e over an event; {H} the helper name; argument expressions chosen so that some mention names
 # that are also bound inside helper bodies (t, j, x, y, e)
@@ -57,6 +57,9 @@ def helper_def(name, params, body, form):
         return f"def {name}({ps}): return {body}\n"
     if form == "defdoc":
         return f"def {name}({ps}):\n    'doc string'\n    return {body}\n"
+    if form == "multi":
+        # two statements: cannot be inlined, must be left as a call by name
+        return f"def {name}({ps}):\n    result = {body}\n    return result\n"
     return f"{name} = lambda {ps}: {body}\n"
 
 
